@@ -13,24 +13,103 @@ let c31 = function
   | [act; exp; d; ops] ->
     let act' = ns_of_sx act and exp' = ns_of_sx exp in
     let d' = nat_of_int (int_of_sx d) in
-    let ops' = List.map (function 0 -> Model.Keep | 1 -> Model.Insert | 2 -> Model.Delete
-                                  | 3 -> Model.Replace | _ -> failwith "op") (ints_of_sx ops) in
-    if Model.lev_check act' exp' d' ops' then
+    let ops' = Stdlib.List.map (function 0 -> Levenshtein.Keep | 1 -> Levenshtein.Insert | 2 -> Levenshtein.Delete
+                                  | 3 -> Levenshtein.Replace | _ -> failwith "op") (ints_of_sx ops) in
+    if Levenshtein.lev_check act' exp' d' ops' then
       let nt = act' <> [] && exp' <> [] && act' <> exp' in
       (* informational: does the faithful model give the very same script? *)
-      let (md, mops) = Model.lev act' exp' in
+      let (md, mops) = LevFaithful.lev act' exp' in
       Printf.sprintf "OK %d %s" (if nt then 1 else 0) (if md = d' && mops = ops' then "same-as-faithful-model" else "other-minimal-script")
     else
-      Printf.sprintf "FAIL lev_check rejected (model distance %d)" (int_of_nat (Model.dist act' exp'))
+      Printf.sprintf "FAIL lev_check rejected (model distance %d)" (int_of_nat (Levenshtein.dist act' exp'))
+  | _ -> "FAIL malformed case"
+
+(* grammars: (start (lhs sym ...) ...), sym = terminal t >= 0 | -(a+1) for non-terminal a *)
+let sym_of_int i = if i >= 0 then Cfg.T (n_of_int i) else Cfg.NT (n_of_int (-i - 1))
+let cfg_of_sx = function
+  | L (st :: ps) ->
+    { Cfg.start = n_of_int (int_of_sx st);
+      prods = Stdlib.List.map (fun p -> match ints_of_sx p with
+          | l :: r -> { Cfg.lhs = n_of_int l; rhs = Stdlib.List.map sym_of_int r }
+          | [] -> failwith "prod") ps }
+  | _ -> failwith "cfg"
+
+let member g w = match Member.member (Member.member_fuel g w) g w with
+  | Some b -> b
+  | None -> failwith "member: out of fuel (impossible by member_fuel_suffices)"
+
+(* all strings over terminals ts up to length n *)
+let rec strings ts n = if n = 0 then [[]] else
+    let shorter = strings ts (n - 1) in
+    shorter @ Stdlib.List.concat_map (fun s -> if Stdlib.List.length s = n - 1 then Stdlib.List.map (fun t -> t :: s) ts else []) shorter
+
+let cfg_terminals g =
+  Stdlib.List.sort_uniq compare (Stdlib.List.concat_map (fun p -> Stdlib.List.filter_map (function Cfg.T t -> Some t | _ -> None) p.Cfg.rhs) g.Cfg.prods)
+
+(* C11 *)
+let c11 = function
+  | [g; nul; unp; rea; unr; lrc; dll; dlr] ->
+    let g' = cfg_of_sx g in
+    let panics = WellFormed.nullable_panics g' in
+    let fails = ref [] in
+    let add k = fails := k :: !fails in
+    let set chk name = function
+      | A "panic" -> if (name = "nullable" || name = "leftrec") && panics then add "start-symbol-without-production" else add (name ^ "-panic")
+      | l -> if not (chk g' (ns_of_sx l)) then add name in
+    set WellFormed.nullable_check "nullable" nul;
+    set WellFormed.unproductive_check "unproductive" unp;
+    set WellFormed.reachable_check "reachable" rea;
+    set WellFormed.unreachable_check "unreachable" unr;
+    set WellFormed.leftrec_check "leftrec" lrc;
+    let dec is_ll name = function
+      | A "panic" -> add (name ^ "-panic")
+      | L [A "ok"] -> if not (WellFormed.decision_check is_ll g' WellFormed.Ok) then add name
+      | L [A "nonproductive"; l] -> if not (WellFormed.decision_check is_ll g' (WellFormed.NonProductive (ns_of_sx l))) then add name
+      | L [A "unreachable"; l] -> if not (WellFormed.decision_check is_ll g' (WellFormed.Unreachable (ns_of_sx l))) then add name
+      | L [A "leftrec"; l] -> if not (WellFormed.decision_check is_ll g' (WellFormed.LeftRecursive (ns_of_sx l))) then add name
+      | _ -> add (name ^ "-othererr") in
+    dec true "decision-ll" dll;
+    dec false "decision-lr" dlr;
+    (match Stdlib.List.sort_uniq compare !fails with
+     | [] ->
+       let kind = (match WellFormed.check_decision true g' with
+           | WellFormed.Ok -> "accepted" | WellFormed.NonProductive _ -> "nonproductive" | WellFormed.Unreachable _ -> "unreachable"
+           | WellFormed.LeftRecursive _ -> "leftrec" | WellFormed.ModelError -> "modelerror") in
+       let nonempty = function L (_ :: _) -> true | _ -> false in
+       let nt = nonempty nul || nonempty unp || nonempty lrc || nonempty unr in
+       Printf.sprintf "OK %d %s" (if nt then 1 else 0) kind
+     | ks -> Printf.sprintf "FAIL key=%s the real result differs from the defined set / decision" (Stdlib.String.concat "+" ks))
+  | _ -> "FAIL malformed case"
+
+(* C12 *)
+let c12 = function
+  | [_; A "panic"] -> "FAIL key=panic augment_grammar panicked"
+  | [g; g'] ->
+    let g1 = cfg_of_sx g and g2 = cfg_of_sx g' in
+    let start_rec = Stdlib.List.exists (fun p -> Stdlib.List.mem (Cfg.NT g1.Cfg.start) p.Cfg.rhs) g1.Cfg.prods in
+    let nstart = Stdlib.List.length (Stdlib.List.filter (fun p -> p.Cfg.lhs = g1.Cfg.start) g1.Cfg.prods) in
+    let nt = start_rec || nstart >= 2 in
+    let tag = if start_rec && nstart = 1 then "recursive-single-start" else if start_rec then "recursive-start" else if nstart >= 2 then "multi-start" else "plain" in
+    if LrAugment.augment_check g1 g2 then Printf.sprintf "OK %d %s" (if nt then 1 else 0) tag
+    else if not (LrAugment.isolatedb g2) then
+      Printf.sprintf "FAIL key=%s start symbol of the augmented grammar is not isolated" (if start_rec && nstart = 1 then "not-isolated-recursive-single-start" else "not-isolated")
+    else begin
+      (* unexpected shape: search for a distinguishing string *)
+      let ts = cfg_terminals g1 @ cfg_terminals g2 |> Stdlib.List.sort_uniq compare in
+      let ws = strings ts 5 in
+      match Stdlib.List.find_opt (fun w -> member g1 w <> member g2 w) ws with
+      | Some w -> Printf.sprintf "FAIL key=language-changed distinguishing string (%s)" (Stdlib.String.concat " " (Stdlib.List.map (fun t -> string_of_int (int_of_n t)) w))
+      | None -> "FAIL key=shape augment_check rejected the result shape; no distinguishing string up to length 5 (no-failing-input-found)"
+    end
   | _ -> "FAIL malformed case"
 
 (* C08 *)
 let dfa_of_sx = function
   | L [p0; k; L ts] ->
-    let tr = List.map (fun t -> match ints_of_sx t with
-        | [f; c; t'; p] -> { Model.t_from = n_of_int f; t_tok = n_of_int c; t_to = n_of_int t'; t_prod = z_of_int p }
+    let tr = Stdlib.List.map (fun t -> match ints_of_sx t with
+        | [f; c; t'; p] -> { DfaEval.t_from = n_of_int f; t_tok = n_of_int c; t_to = n_of_int t'; t_prod = z_of_int p }
         | _ -> failwith "trans") ts in
-    { Model.prod0 = z_of_int (int_of_sx p0); transitions = tr; depth = nat_of_int (int_of_sx k) }
+    { DfaEval.prod0 = z_of_int (int_of_sx p0); transitions = tr; depth = nat_of_int (int_of_sx k) }
   | _ -> failwith "dfa"
 
 let c08 = function
@@ -38,22 +117,22 @@ let c08 = function
   | [d; buf; res] ->
     let d' = dfa_of_sx d in
     let buf' = ns_of_sx buf in
-    if not (Model.sortedb d'.Model.transitions && Model.wfd d') then "SKIP automaton not sorted/well-formed"
+    if not (DfaEval.sortedb d'.DfaEval.transitions && DfaEval.wfd d') then "SKIP automaton not sorted/well-formed"
     else begin
-      let k = int_of_nat d'.Model.depth in
+      let k = int_of_nat d'.DfaEval.depth in
       match res with
-      | L [A "err"; _] -> if List.length buf' < k then "SKIP short buffer" else "FAIL key=othererr unexpected error kind"
+      | L [A "err"; _] -> if Stdlib.List.length buf' < k then "SKIP short buffer" else "FAIL key=othererr unexpected error kind"
       | _ ->
         let r = (match res with L [A "ok"; p] -> Some (z_of_int (int_of_sx p)) | A "prederr" -> None | _ -> failwith "res") in
         (* non-trivial: the buffer follows the automaton for >= 1 token and then leaves it within depth *)
         let rec firstn n l = if n = 0 then [] else match l with [] -> [] | x :: t -> x :: firstn (n - 1) t in
-        let runs n = Model.run d'.Model.transitions (firstn n buf') N0 d'.Model.prod0 <> None in
+        let runs n = DfaEval.run d'.DfaEval.transitions (firstn n buf') BinNums.N0 d'.DfaEval.prod0 <> None in
         let nt = ref false in
-        for n = 1 to k - 1 do if runs n && not (runs (n + 1)) && List.length buf' > n then nt := true done;
-        if Model.eval_check d' buf' r then Printf.sprintf "OK %d %s" (if !nt then 1 else 0) (match r with Some _ -> "predict" | None -> "error")
+        for n = 1 to k - 1 do if runs n && not (runs (n + 1)) && Stdlib.List.length buf' > n then nt := true done;
+        if DfaEval.eval_check d' buf' r then Printf.sprintf "OK %d %s" (if !nt then 1 else 0) (match r with Some _ -> "predict" | None -> "error")
         else begin
-          let m = (match Model.eval d' buf' with Model.Predict p -> Printf.sprintf "predict %d" (int_of_z p) | Model.PredictionError -> "prediction error" | Model.LexerErr -> "lexer error") in
-          let old = (match Model.eval_old d' buf', r with Model.Predict p, Some q when p = q -> " (agrees with the pre-fix walk eval_old: an unmatched token was skipped)" | _ -> "") in
+          let m = (match DfaEval.eval d' buf' with DfaEval.Predict p -> Printf.sprintf "predict %d" (int_of_z p) | DfaEval.PredictionError -> "prediction error" | DfaEval.LexerErr -> "lexer error") in
+          let old = (match DfaEval.eval_old d' buf', r with DfaEval.Predict p, Some q when p = q -> " (agrees with the pre-fix walk eval_old: an unmatched token was skipped)" | _ -> "") in
           Printf.sprintf "FAIL key=%s eval_check rejected: model says %s%s" (if old <> "" then "skips-unmatched-token" else "mismatch") m old
         end
     end
@@ -63,13 +142,15 @@ let dispatch (sx : Sexp.t) : string =
   match sx with
   | L (A "lev" :: args) -> c31 args
   | L (A "eval" :: args) -> c08 args
+  | L (A "aug" :: args) -> c12 args
+  | L (A "wf" :: args) -> c11 args
   | _ -> "SKIP unknown case kind"
 
 let () =
   try
     while true do
       let line = input_line stdin in
-      if String.length line > 0 && line.[0] = '(' then begin
+      if Stdlib.String.length line > 0 && line.[0] = '(' then begin
         let verdict =
           try dispatch (Sexp.parse line)
           with e -> "FAIL driver exception " ^ Printexc.to_string e in
